@@ -56,7 +56,8 @@ def _reads_of(fn, rd, cfg, attr, defs):
   for (n, c, nm) in fn.calls():
     if isinstance(c.func, ast.Attribute) and c.func.attr == attr and \
         isinstance(c.func.value, ast.Name) and \
-        rd.reaching(c.func.value.id, n.id) and rd.reaching(c.func.value.id, n.id) <= set(defs):
+        H.origin_defs(rd, c.func.value.id, n.id) and \
+        H.origin_defs(rd, c.func.value.id, n.id) <= set(defs):
       out.append((n, c))
   return out
 
@@ -65,7 +66,7 @@ def r1_user_level(run, w):
   R1 = run.rule("C23-R1", "doModifyColumn: capture old values before the doc action, convert the "
                 "captured value with the new column, set + record every differing row, hand the "
                 "record to summary.add_changes, flush when the result is a data column", floor=9)
-  fn = w.fn("useractions.UserActions.doModifyColumn")
+  fn = H.inlined_fn(w, "useractions.UserActions.doModifyColumn")
   cfg = fn.cfg
   du = DefUse(fn)
   rd = H.ReachDefs(fn, du)
@@ -124,7 +125,11 @@ def r1_user_level(run, w):
   run.ob(R1, fn.qualname, short(comp), "the raw old value of every row is captured, keyed by "
          "row id, nothing filtered", ok, fi=fn.fi, node=cn.stmt)
   rowsv = gen.iter.id if isinstance(gen.iter, ast.Name) else None
-  cap_writers = du.writers(capv)
+  # later plain copies of the captured dict (`x = all_old_values`) are no rewrites; in-place
+  # writes through the dict or any copy of it, and rebindings of the name itself, are
+  cap_writers = set(du.defs.get(capv, set()))
+  for nm_ in du.group(capv):
+    cap_writers |= du.muts.get(nm_, set())
   ok = all(cfg.dominated_by(g.id, {d}) for d in capdefs) and not (cap_writers & after_g) and \
       cn.id not in after_g
   run.ob(R1, fn.qualname, "%s captured before gateway(ModifyColumn), never rewritten" % capv,
@@ -142,7 +147,8 @@ def r1_user_level(run, w):
          "of the table, listed before the change", ok, fi=fn.fi)
   # no state read of the old column after the doc action
   late = [c for (n, c, nm) in fn.calls() if n.id in after_g and isinstance(c.func, ast.Attribute)
-          and isinstance(c.func.value, ast.Name) and on.id in rd.reaching(c.func.value.id, n.id)]
+          and isinstance(c.func.value, ast.Name) and
+          on.id in H.origin_defs(rd, c.func.value.id, n.id)]
   run.ob(R1, fn.qualname, "%s not used after gateway(ModifyColumn)" % oldv,
          "the destroyed column object is not consulted again", not late, fi=fn.fi,
          node=late[0] if late else None)
@@ -156,8 +162,8 @@ def r1_user_level(run, w):
   rowvar = text(lp.stmt.target)
   run.ob(R1, fn.qualname, "for %s in %s" % (rowvar, text(lp.stmt.iter)),
          "the conversion loop covers the same rows the capture did",
-         isinstance(lp.stmt.iter, ast.Name) and lp.stmt.iter.id == rowsv and
-         rd.reaching(rowsv, lp.id) == rows_defs and
+         isinstance(lp.stmt.iter, ast.Name) and
+         H.origin_defs(rd, lp.stmt.iter.id, lp.id) == H.origin_defs(rd, rowsv, cap_at) and
          cfg.postdominated_by(g.id, {lp.id}), fi=fn.fi, node=lp.stmt)
   body_stmts = H.stmts_under(lp.stmt.body)
   body = H.nodes_of_stmts(cfg, body_stmts)
@@ -167,7 +173,8 @@ def r1_user_level(run, w):
   conv = convs[0][1] if convs else None
   if ok:
     recv = conv.func.value
-    ok = isinstance(recv, ast.Name) and rd.reaching(recv.id, convs[0][0].id) == {nn.id} and \
+    ok = isinstance(recv, ast.Name) and \
+        H.origin_defs(rd, recv.id, convs[0][0].id) == {nn.id} and \
         len(conv.args) == 1 and not conv.keywords
   src = None
   if ok:
@@ -216,7 +223,7 @@ def r1_user_level(run, w):
           rb_at = next(iter(ds)) if len(ds) == 1 and H.ReachDefs.ENTRY not in ds else None
         readback = isinstance(e2, ast.Call) and isinstance(e2.func, ast.Attribute) \
             and e2.func.attr == "raw_get" and isinstance(e2.func.value, ast.Name) and \
-            rb_at is not None and rd.reaching(e2.func.value.id, rb_at) == {nn.id} and \
+            rb_at is not None and H.origin_defs(rd, e2.func.value.id, rb_at) == {nn.id} and \
             [CF(x) for x in e2.args] == [rowvar]
         if e[0] == rowvar and e[1] == c_old and (e[2] == c_new or readback):
           recs.append((n, c.func.value.id, readback, rb_at))
@@ -361,7 +368,7 @@ def r2_doc_level(run, w):
   val = H.expand(fn, sc.args[1], pure_only=False, stop={oldv, newv})
   from_old = isinstance(val, ast.Call) and isinstance(val.func, ast.Attribute) and \
       val.func.attr == "raw_get" and isinstance(val.func.value, ast.Name) and \
-      rd.reaching(val.func.value.id, sn.id) == {on.id} and \
+      H.origin_defs(rd, val.func.value.id, sn.id) == {on.id} and \
       [H.canon(fn, a) for a in val.args] == [rv] and not val.keywords
   # unconditionally: every way round the loop passes the set
   first = H.nodes_of_stmts(cfg, lp.stmt.body[:1])
